@@ -78,6 +78,41 @@ CLAIMED = {
         note="Trusted externals: scipy.stats.unitary_group.rvs and numpy's Generator.permutation (validated per call), "
              "Python hash(str), float 10**x / log10.",
         ref="§5 C18"),
+    "C03": dict(
+        text="Lean theorems over the executable Fock model: fock_basis enumerates exactly the occupations once each; "
+             "the recursive permanent equals Mathlib's Matrix.permanent of the photon-indexed sub-matrix (Laplace "
+             "expansion proved); simulate returns exactly perm(U_full[out|in]) with heralds inserted and vacuum on loss "
+             "modes together with the factorial normalisation; the validation/rejection decision table; and the Fock "
+             "isometry (for unitary U the squared amplitudes from one input to all outputs sum to 1, for every mode and "
+             "photon number) via the fibre-sum lemma and stabiliser counting. Correspondence: Simulator vs model on "
+             "generated heralded/lossy circuits and malformed inputs; the property's formula is also evaluated "
+             "independently on the implementation's own U_full.",
+        technique="Lean 4 proof (Laplace expansion of the permanent, fibre-sum/orbit counting for the Fock isometry) "
+                  "over an executable model + correspondence check",
+        note="Trusted: thewalrus.perm computes the permanent (cross-checked against the exact model every case).",
+        ref="§5 C03"),
+    "C04": dict(
+        text="Lean theorems over the executable distribution model (both backends, sqrt-free SLOS recursion, "
+             "pdist_calc): non-negativity, photon bound, one entry per pattern, marginalisation over loss "
+             "configurations, total = 1 for lossy circuits at any truncation; normalisation at zero truncation follows "
+             "from the Fock isometry theorem. Correspondence: Sampler.probability_distribution (both backends) vs the "
+             "exact model with the same 1e-9 truncation; all clauses evaluated on the implementation against an "
+             "independent permanent-based reference.",
+        technique="Lean 4 proofs over an executable model of both backends + correspondence check with exact rationals",
+        note="slos = permanent (layer recursion vs permanent formula) is validated by running both models and both "
+             "backends on every case; its Lean proof is planned on top of the fibre-sum lemma. Floating point is outside "
+             "the model (exact rationals).",
+        ref="§5 C04"),
+    "C05": dict(
+        text="Executable Lean model of post-selection rules, Analyzer.analyze (outputs, loss-configuration sums, "
+             "performance, error rate) and QuickSampler; the property's cross-object relations are evaluated "
+             "impl-vs-impl on every generated configuration (oracle) and Analyzer/QuickSampler outputs are compared "
+             "with the exact model.",
+        technique="Lean 4 theorems over an executable model of Analyzer/QuickSampler + impl-vs-impl relation oracle "
+                  "and model correspondence",
+        note="The relation theorems (analyzer = sampler lookup, quick = conditional) are being proved; until then the "
+             "Lean side provides the exact reference and the relations are checked numerically on every case.",
+        ref="§5 C05"),
 }
 
 PENDING_REASON = "check not built yet in this session (planned, see DESIGN.md §5 and §11); not claimed until its machinery exists"
